@@ -29,21 +29,32 @@ Definition get_node_event (n : var) (ev : event) : nat * bool :=
 Definition dict_set {K T} `{EqB K} (d : list (K * T)) (k : K) (v : T) : list (K * T) :=
   if existsb (fun p => eqb (fst p) k) d then map (fun p => if eqb (fst p) k then (k, v) else p) d else d ++ [(k, v)].
 
-Definition get_events_of_district (cf : cgraph) (district : list var) (ev : event) : option event :=
+(* get_events_of_district: {node.intervene(pillow): value}. The district is a frozenset: when two of its nodes get the
+   same key (a variable and one of its counterfactual copies) with different values, the value that survives depends on
+   the iteration order - the model returns every possibility. *)
+Definition district_items (cf : cgraph) (district : list var) (ev : event) : option (list (var * (nat * bool))) :=
   let pillow := get_markov_pillow cf district in
-  fold_left (fun acc n =>
-    match acc with
-    | None => None
-    | Some d =>
-        let key := match pillow with
-                   | [] => Some (base n)
-                   | _ => var_intervene (base n) pillow
-                   end in
-        match key with
-        | Some k => Some (dict_set d k (get_node_event n ev))
-        | None => None
-        end
-    end) district (Some []).
+  map_opt (fun n =>
+    let key := match pillow with
+               | [] => Some (base n)
+               | _ => var_intervene (base n) pillow
+               end in
+    option_map (fun k => (k, get_node_event n ev)) key) district.
+
+Fixpoint choices {T} (alts : list (list T)) : list (list T) :=
+  match alts with
+  | [] => [[]]
+  | a :: t => flat_map (fun x => map (cons x) (choices t)) a
+  end.
+
+Definition get_events_of_district_all (cf : cgraph) (district : list var) (ev : event) : option (list event) :=
+  match district_items cf district ev with
+  | None => None
+  | Some items =>
+      let keys := dedup (map fst items) in
+      let cands (k : var) := dedup (map snd (filter (fun p => eqb (fst p) k) items)) in
+      Some (map (fun vals => combine keys vals) (choices (map cands keys)))
+  end.
 
 Definition get_conflicts (cf : cgraph) (ev : event) : bool :=
   let interventions := get_cf_interventions (nodes cf) in
@@ -99,11 +110,11 @@ Section IDSTAR.
                     if negb (Nat.eqb (List.length (districts sub)) 1) then
                       (* line 6 *)
                       let summand := get_free_variables cf new_ev in
-                      let evs := map (fun d => get_events_of_district cf d new_ev) (districts sub) in
+                      let evs := map (fun d => get_events_of_district_all cf d new_ev) (districts sub) in
                       if existsb (fun e => match e with None => true | _ => false end) evs then [IdCrash ValueError]
                       else if Nat.leb (List.length evs) 1 then [IdCrash RuntimeError]
                       else
-                        let subresults := map (fun e => match e with Some e' => id_star f e' | None => [] end) evs in
+                        let subresults := map (fun e => match e with Some alts => flat_map (id_star f) alts | None => [] end) evs in
                         map (fun rs =>
                                match find (fun r => match r with IdCrash _ => true | _ => false end) rs with
                                | Some c => c
@@ -178,7 +189,8 @@ Section IDCSTAR.
                         map (fun r => match r with
                                       | IdOk e => match conditions with
                                                   | [] => IdOk e
-                                                  | _ => match conditional_on e conditions with EErr k => IdCrash k | e' => IdOk e' end
+                                                  | _ => if is_zero e then IdOk e   (* repaired: an impossible joint stays Zero *)
+                                                         else match conditional_on e conditions with EErr k => IdCrash k | e' => IdOk e' end
                                                   end
                                       | r' => r'
                                       end) (id_star g topo (S (4 * List.length (nodes g))) (dict_merge no nc))
